@@ -446,7 +446,7 @@ pub fn proptest_config(cases: u32, seed: u64) -> Config {
     c.failure_persistence = None;
     c.rng_algorithm = RngAlgorithm::ChaCha;
     c.rng_seed = RngSeed::Fixed(seed);
-    c.max_shrink_iters = 4096;
+    c.max_shrink_iters = 1200;
     c.max_shrink_time = 0;
     c.verbose = 0;
     c.max_local_rejects = 65_536;
